@@ -21,13 +21,24 @@ From Oras Require Import Base.Prelude Base.Regex Base.StrCheck Generated.GC19.
 
 Definition kv := (str * str)%type.
 
+(* urls, data and platform of a descriptor: Pack only passes them through *)
+Record platform := mkPlatform {
+  p_arch : str; p_os : str; p_osver : str; p_osfeat : list str; p_variant : str
+}.
+Record dextra := mkExtra {
+  x_urls : list str;             (* [] = omitted *)
+  x_data : str;                  (* embedded content, [] = omitted *)
+  x_platform : option platform
+}.
+Definition no_extra : dextra := mkExtra [] [] None.
+
 Record desc := mkDesc {
   d_mt : str;          (* mediaType *)
   d_dg : str;          (* digest *)
   d_sz : Z;            (* size *)
   d_ann : list kv;     (* annotations *)
   d_at : str;          (* artifactType *)
-  d_extra : str        (* urls / data / platform: opaque, passed through *)
+  d_extra : dextra     (* urls / data / platform *)
 }.
 
 Inductive mkind := KImage | KArtifact.
@@ -48,8 +59,8 @@ Definition AnnotationCreated : str := b "org.opencontainers.image.created".
 Definition empty_json : str := [123; 125].  (* {} *)
 Definition empty_json_digest : str :=
   b "sha256:44136fa355b3678a1146ad16f7e8649e94fb4fc21fe77e8310c060f61caaff8a".
-(* ocispec.DescriptorEmptyJSON carries Data = "{}" (base64 e30=) *)
-Definition empty_json_extra : str := [123; 34; 100; 97; 116; 97; 34; 58; 34; 101; 51; 48; 61; 34; 125].
+(* ocispec.DescriptorEmptyJSON carries Data = "{}" *)
+Definition empty_json_extra : dextra := mkExtra [] [123; 125] None.
 Definition DescriptorEmptyJSON : desc :=
   mkDesc MediaTypeEmptyJSON empty_json_digest 2 [] [] empty_json_extra.
 
@@ -219,9 +230,15 @@ Fixpoint utf8_san (s : str) : str :=
   end.
 
 Definition san_ann (l : list kv) : list kv := map (fun p => (utf8_san (fst p), utf8_san (snd p))) l.
-(* [d_extra] stands for JSON text of urls / data / platform and is left alone *)
+Definition san_platform (p : platform) : platform :=
+  mkPlatform (utf8_san (p_arch p)) (utf8_san (p_os p)) (utf8_san (p_osver p)) (map utf8_san (p_osfeat p))
+             (utf8_san (p_variant p)).
+(* the embedded data is bytes (base64 in JSON), not a string: untouched *)
+Definition san_extra (x : dextra) : dextra :=
+  mkExtra (map utf8_san (x_urls x)) (x_data x) (option_map san_platform (x_platform x)).
 Definition san_desc (d : desc) : desc :=
-  mkDesc (utf8_san (d_mt d)) (utf8_san (d_dg d)) (d_sz d) (san_ann (d_ann d)) (utf8_san (d_at d)) (d_extra d).
+  mkDesc (utf8_san (d_mt d)) (utf8_san (d_dg d)) (d_sz d) (san_ann (d_ann d)) (utf8_san (d_at d))
+         (san_extra (d_extra d)).
 Definition san_manifest (m : manifest) : manifest :=
   mkManifest (m_kind m) (option_map san_desc (m_config m)) (option_map (map san_desc) (m_layers m))
              (option_map san_desc (m_subject m)) (utf8_san (m_at m)) (san_ann (m_ann m)).
@@ -364,7 +381,7 @@ Section Pack.
 
   (* content.NewDescriptorFromBytes *)
   Definition desc_from_bytes (mt : str) (bytes : str) : desc :=
-    mkDesc mt (H bytes) (Z.of_nat (length bytes)) [] [] [].
+    mkDesc mt (H bytes) (Z.of_nat (length bytes)) [] [] no_extra.
 
   Definition with_ann (d : desc) (ann : list kv) : desc :=
     mkDesc (d_mt d) (d_dg d) (d_sz d) ann (d_at d) (d_extra d).
@@ -373,7 +390,7 @@ Section Pack.
   Definition push_manifest (tc : tcfg) (fa : option nat) (s : state) (m : manifest) (at_ : str)
     : state * result :=
     let bytes := marshal m in
-    let d := mkDesc (kind_mt (m_kind m)) (H bytes) (Z.of_nat (length bytes)) (m_ann m) at_ [] in
+    let d := mkDesc (kind_mt (m_kind m)) (H bytes) (Z.of_nat (length bytes)) (m_ann m) at_ no_extra in
     match do_push tc fa s RManifest d bytes with
     | (s', true) => (s', Ok d m)
     | (s', false) => (s', Err EInjected)
@@ -522,3 +539,37 @@ Section Pack.
 
   Definition init_state (st : list entry) : state := mkState st 0 [].
 End Pack.
+
+(* ---------- histories: any sequence of Pack / PackManifest calls on one target ---------- *)
+Record call := mkCall { c_fn : fn; c_at : str; c_opts : opts; c_now : str }.
+
+Section History.
+  Variable marshal : manifest -> str.
+  Variable H : str -> str.
+
+  (* the fault plan counts the storage operations of the whole history *)
+  Fixpoint run_calls (tc : tcfg) (fa : option nat) (s : state) (cs : list call) : state * list result :=
+    match cs with
+    | [] => (s, [])
+    | c :: rest =>
+      match pack marshal H (c_fn c) tc fa s (c_at c) (c_opts c) (c_now c) with
+      | (s1, r1) =>
+        match run_calls tc fa s1 rest with
+        | (s2, rs) => (s2, r1 :: rs)
+        end
+      end
+    end.
+End History.
+
+(* ---------- time.Now().UTC().Format(time.RFC3339) on a broken-down UTC time ---------- *)
+Definition dig2 (n : N) : str := [48 + n / 10; 48 + n mod 10].
+Definition dig4 (n : N) : str := [48 + n / 1000; 48 + (n / 100) mod 10; 48 + (n / 10) mod 10; 48 + n mod 10].
+
+(* "2006-01-02T15:04:05Z07:00" with offset 0 *)
+Definition format_rfc3339_utc (y mo d h mi s : N) : str :=
+  dig4 y ++ [45] ++ dig2 mo ++ [45] ++ dig2 d ++ [84] ++ dig2 h ++ [58] ++ dig2 mi ++ [58] ++ dig2 s ++ [90].
+
+(* what the runtime's clock guarantees of a UTC time before the year 10000 *)
+Definition civil_ok (y mo d h mi s : N) : bool :=
+  (y <=? 9999) && (1 <=? mo) && (mo <=? 12) && (1 <=? d) && (d <=? days_in mo y) &&
+  (h <=? 23) && (mi <=? 59) && (s <=? 59).
